@@ -38,7 +38,8 @@ class Register(Stream):
     harness = HARNESS
     testname = "TestVerifC06"
     rule = ("four flows on a real Core (leased secret via a recording backend with service / batch-child / orphan-batch / "
-            "root requester; the same read response-wrapped; login on a fake credential backend, service / batch; "
+            "root requester, and mounted the modern way / under the legacy stored type `plugin` (non-kv and kv plugin name) / "
+            "under the types kv and generic, with and without leased_passthrough; the same read response-wrapped; login on a fake credential backend, service / batch; "
             "auth/token/create[-orphan], service / batch child) x number of requester policies; per variant a fault-free dry run (storage-op sequence), EVERY "
             "single fault position k <= N of the request goroutine, and EVERY crash point (snapshot after each physical "
             "write, new core on the copy, restore, lookup probe); non-trivial = the fault fired / a crash point; distinct = "
@@ -56,9 +57,12 @@ class Register(Stream):
             return base
         f = op.split("\t")
         kind = f[0]
-        if kind not in ("dry", "fault", "crash") or len(f) < 6:
+        if kind not in ("dry", "fault", "crash") or len(f) < 7:
             return None
-        flow, req, typ = f[1], f[2], f[4]
+        flow, req, typ, mnt = f[1], f[2], f[4], f[6]
+        # the only mounts that may answer with a secret and no lease: stored type kv / generic, or the legacy generic
+        # type `plugin` with plugin name kv (decided here from the mount kind, not from the model)
+        kv_mount = mnt.startswith("kv") or mnt.startswith("gen") or mnt.startswith("pk") or mnt.startswith("pt")
         if impl in ("panic",) or impl.startswith("err:restart") or impl.startswith("err:restore"):
             return viol("harness-observation-failed", "the real code panicked / did not restart: " + impl)
         o = parse_obs(impl)
@@ -89,9 +93,11 @@ class Register(Stream):
                 return viol("secret-without-token-index", "a wrapped secret was handed out but its token index entry is missing")
             return None
         if cls == "ok":
+            if sec and kv_mount and not new:
+                return None     # KV exemption: TTL returned, no lease by design
             if sec:
                 if new.get("lease-id", 0) < 1 or o.get("trk") != "1":
-                    return viol("secret-without-lease", "a leased secret was returned but no tracked lease entry exists")
+                    return viol("secret-without-lease", "a secret was returned by a non-KV engine (mount kind %s) but no tracked lease entry exists" % mnt)
                 if req != "o" and new.get("lease-tokidx", 0) < 1:
                     return viol("secret-without-token-index", "a leased secret was returned but its token index entry is missing")
             if tok and typ == "s":
